@@ -506,6 +506,11 @@ def main(argv):
 
     args = [harness, "c01", "--seed", str(c.seed), "--tier", c.tier, "--out", c.work]
     rc, out = vlib.run(args, timeout=3000)
+    if rc == 7 and os.path.exists(os.path.join(c.work, "HANG.txt")):
+        hang = open(os.path.join(c.work, "HANG.txt")).read().strip()
+        c.violation("C01:evaluation-hangs", "a query did not return within 20 s (store, filter): %s" % hang,
+                    dict(hang=hang, note="the harness watchdog stopped the run; replay by running this filter on any non-trivial dataset"))
+        return c.finish()
     if rc != 0:
         c.violation("C01:harness-run", "harness failed rc=%s: %s" % (rc, out[-500:]),
                     dict(correspondence="harness run", log=out[-3000:]), no_input=True)
